@@ -19,6 +19,21 @@ I = z3.IntSort()
 B = z3.BoolSort()
 
 
+def bump2(f, cond, delta):
+    """g,u -> f(g,u) + delta where cond(g,u) (f evaluated once: closures nest, so never call `old` twice)"""
+    def r(g, u):
+        c = f(g, u)
+        return z3.If(cond(g, u), c + delta, c)
+    return r
+
+
+def bump1(f, cond, delta):
+    def r(g):
+        c = f(g)
+        return z3.If(cond(g), c + delta, c)
+    return r
+
+
 class CState:
     FIELDS = ('dom', 'typ', 'nops', 'op', 'opc', 'udom', 'cnt', 'tot', 'in_n', 'in_elem', 'in_cnt', 'out_n', 'out_elem',
               'out_cnt', 'b_member', 'b_name', 'bg', 'bi', 'bo', 'size', 'rank')
@@ -134,12 +149,19 @@ class OpsSeq(Model):
     def __init__(self, n, elem, count):
         self.n, self.elem, self.count = n, elem, count
 
-    def concrete_len(self):
+    def concrete_len(self, it=None):
         n = z3.simplify(self.n)
-        return n.as_long() if z3.is_int_value(n) else None
+        if z3.is_int_value(n):
+            return n.as_long()
+        if it is not None and it.ctx is not None:
+            # the path condition may force the arity (e.g. typ(g) = GT and the arity precondition)
+            for k in range(0, 4):
+                if not it.ctx.feasible(self.n != k):
+                    return k
+        return None
 
     def m_len(self, it):
-        k = self.concrete_len()
+        k = self.concrete_len(it)
         return k if k is not None else Sym(self.n)
 
     def m_getitem(self, it, k):
@@ -153,7 +175,7 @@ class OpsSeq(Model):
         return Sym(self.elem(idx))
 
     def m_iter(self, it):
-        k = self.concrete_len()
+        k = self.concrete_len(it)
         if k is None:
             raise Unsupported('iteration over operands of symbolic arity needs a loop invariant')
         for j in range(k):
@@ -228,6 +250,21 @@ class GatesMap(Model):
         S.size = z3.If(old.dom(kt), old.size, old.size + 1)
         self.h.S = S
         it.ctx.check('gate-key-equals-label', kt == lab, {'witness': 'key!=label'})
+        if getattr(self.h, 'V', None) is not None and not it.ctx.feasible(old.dom(kt)):
+            # a fresh gate: its value under the ghost valuation V is defined by its equation (sound: V(kt) was unconstrained)
+            nn = z3.simplify(n)
+            from .theory import OPz
+            tname = None
+            tt = z3.simplify(ty)
+            for name, const in GT.items():
+                if tt.eq(const):
+                    tname = name
+            if tname is not None and z3.is_int_value(nn) and tname != 'INPUT':
+                vals = [self.h.V(elem(z3.IntVal(j))) for j in range(nn.as_long())]
+                from ..spec.ops import arity_ok
+                if arity_ok(tname, len(vals)):
+                    it.ctx.assume(self.h.V(kt) == OPz(tname, vals))
+                    self.h.events.append(('gate-defined', kt, tname, len(vals)))
 
     def m_delitem(self, it, k):
         old = self.h.S
@@ -274,8 +311,8 @@ class UsersRef(Model):
             def append(x):
                 old, xt = h.S, it.label_term(x)
                 S = old.copy()
-                S.cnt = lambda g, u: z3.If(z3.And(g == kt, u == xt), old.cnt(g, u) + 1, old.cnt(g, u))
-                S.tot = lambda g: z3.If(g == kt, old.tot(g) + 1, old.tot(g))
+                S.cnt = bump2(old.cnt, lambda g, u: z3.And(g == kt, u == xt), 1)
+                S.tot = bump1(old.tot, lambda g: g == kt, 1)
                 h.S = S
             return Native('users.append', append)
         if name == 'remove':
@@ -284,8 +321,8 @@ class UsersRef(Model):
                 if not it.ctx.choose(_simp(old.cnt(kt, xt) > 0)):
                     it.raise_('ValueError', 'list.remove(x): x not in list')
                 S = old.copy()
-                S.cnt = lambda g, u: z3.If(z3.And(g == kt, u == xt), old.cnt(g, u) - 1, old.cnt(g, u))
-                S.tot = lambda g: z3.If(g == kt, old.tot(g) - 1, old.tot(g))
+                S.cnt = bump2(old.cnt, lambda g, u: z3.And(g == kt, u == xt), -1)
+                S.tot = bump1(old.tot, lambda g: g == kt, -1)
                 h.S = S
             return Native('users.remove', remove)
         if name == 'index':
@@ -306,7 +343,10 @@ class UsersRef(Model):
         old, h, kt = self.h.S, self.h, self.kt
         a, b = k.xt, it.label_term(v)
         S = old.copy()
-        S.cnt = lambda g, u: z3.If(g == kt, z3.If(a == b, old.cnt(g, u), z3.If(u == a, old.cnt(g, u) - 1, z3.If(u == b, old.cnt(g, u) + 1, old.cnt(g, u)))), old.cnt(g, u))
+        def cnt2(g, u, oc=old.cnt):
+            c = oc(g, u)
+            return z3.If(z3.And(g == kt, a != b), z3.If(u == a, c - 1, z3.If(u == b, c + 1, c)), c)
+        S.cnt = cnt2
         h.S = S
 
     def m_iter(self, it):
@@ -405,7 +445,7 @@ class LabelList(Model):
                 S = old.copy()
                 setattr(S, w + '_n', n + 1)
                 setattr(S, w + '_elem', lambda i: z3.If(i == n, xt, elem(i)))
-                setattr(S, w + '_cnt', lambda l: z3.If(l == xt, cnt(l) + 1, cnt(l)))
+                setattr(S, w + '_cnt', bump1(cnt, lambda l: l == xt, 1))
                 h.S = S
             return Native('labels.append', append)
         if name == 'remove':
@@ -418,7 +458,7 @@ class LabelList(Model):
                 # positions after the first occurrence shift left: positional view becomes a fresh symbol
                 # constrained only through the count view (order facts are left to the bounded layer)
                 e2 = z3.Function(it.ctx.fresh(I, w + '_elem_r').decl().name(), I, LabelSort)
-                c2 = lambda l: z3.If(l == xt, cnt(l) - 1, cnt(l))
+                c2 = bump1(cnt, lambda l: l == xt, -1)
                 setattr(S, w + '_n', n - 1)
                 setattr(S, w + '_elem', lambda i: e2(i))
                 setattr(S, w + '_cnt', c2)
@@ -465,7 +505,7 @@ class BlockList(Model):
                 old, xt, fld = self.h.S, it.label_term(x), self.fld
                 f = getattr(old, fld)
                 S = old.copy()
-                setattr(S, fld, lambda l: z3.If(l == xt, f(l) + 1, f(l)))
+                setattr(S, fld, bump1(f, lambda l: l == xt, 1))
                 self.h.S = S
             return Native('block.list.append', append)
         raise Unsupported('block list method ' + name)
@@ -539,10 +579,12 @@ def make_circuit(it, ctx, tag='c', wf=True, empty=False):
     h.other_block = lambda kt: ob(kt)
     if not empty:
         assume_state(ctx, S, wf=wf, tag=tag)
+    h.V = z3.Function(f'V@{tag}', LabelSort, B)
     o = Obj(cls, {'_inputs': LabelList(h, 'in'), '_outputs': LabelList(h, 'out'), '_gates': GatesMap(h),
                   '_gate_to_users': UsersMap(h), '_blocks': BlocksMap(h)})
     h.obj = o
     h.S0 = S
+    o.holder = h
     return o, h
 
 
@@ -557,7 +599,7 @@ class UsersLoop:
         self.base = None
 
     def applies(self, it, env, iterable):
-        return isinstance(iterable, OpsSeq) and iterable.concrete_len() is None
+        return isinstance(iterable, OpsSeq) and iterable.concrete_len(it) is None
 
     def _setup(self, it, env):
         if self.base is not None:
@@ -600,3 +642,56 @@ class UsersLoop:
     def install(self, it, env, k):
         self._setup(it, env)
         self.h.S = self.closed(k)
+
+
+# ------------------------------------------------------------------ callee contracts ----------
+CIRC = 'cirbo/core/circuit/circuit.py'
+
+
+def add_user_post(old, kt, ut):
+    """contract of Circuit._add_user(gate_label=kt, user=ut): one more occurrence of ut in users[kt]; key present"""
+    S = old.copy()
+    S.cnt = bump2(old.cnt, lambda g, u: z3.And(g == kt, u == ut), 1)
+    S.tot = bump1(old.tot, lambda g: g == kt, 1)
+    S.udom = lambda l: z3.Or(l == kt, old.udom(l))
+    return S
+
+
+def remove_user_post(old, kt, ut):
+    """contract of Circuit._remove_user(gate_label=kt, user=ut): one occurrence less if there is one, else nothing"""
+    S = old.copy()
+    has = old.cnt(kt, ut) > 0
+    S.cnt = bump2(old.cnt, lambda g, u: z3.And(g == kt, u == ut, has), -1)
+    S.tot = bump1(old.tot, lambda g: z3.And(g == kt, has), -1)
+    return S
+
+
+def install_user_contracts(it):
+    """Modular call rule for the two users-index primitives (their own bodies are verified against these
+    contracts by C02: obligations C02/_add_user/*, C02/_remove_user/*)."""
+    def add_user(it_, fv, args, kwargs):
+        self_, gl, user = _bind3(args, kwargs, ('gate_label', 'user'))
+        h = getattr(self_, 'holder', None)
+        if h is None:
+            return it_.call_function(fv, args, kwargs, force_inline=True)
+        h.S = add_user_post(h.S, it_.label_term(gl), it_.label_term(user))
+        return None
+
+    def remove_user(it_, fv, args, kwargs):
+        self_, gl, user = _bind3(args, kwargs, ('gate_label', 'user'))
+        h = getattr(self_, 'holder', None)
+        if h is None:
+            return it_.call_function(fv, args, kwargs, force_inline=True)
+        h.S = remove_user_post(h.S, it_.label_term(gl), it_.label_term(user))
+        return None
+    it.contracts[CIRC + '::Circuit._add_user'] = add_user
+    it.contracts[CIRC + '::Circuit._remove_user'] = remove_user
+
+
+def _bind3(args, kwargs, names):
+    args = list(args)
+    vals = [args[0]]
+    rest = args[1:]
+    for i, n in enumerate(names):
+        vals.append(rest[i] if i < len(rest) else kwargs[n])
+    return vals
